@@ -81,6 +81,7 @@ class Tokenizer:
         # join strings while handling whitespace
         string = ""
         line = ""
+        comma = False
         while True:
             tok = next(self._tokengen)
             if tok.type == Token.ENDMARKER:
@@ -100,6 +101,7 @@ class Tokenizer:
                     break
 
                 if tok.is_exact_type(","):
+                    comma = True
                     break
             end = tok.end
             if start is None:
@@ -116,6 +118,8 @@ class Tokenizer:
         if start is None or end is None:
             raise self.syntax_error("empty macro argument", tok)
         if not string.strip():
+            if comma:  # blank text before a comma is an empty argument too; dropping it would shift the following ones
+                raise self.syntax_error("empty macro argument", tok)
             return TokenInfo(Token.WS, string, start, end, line)
         return TokenInfo(Token.MACRO_PARAM, string, start, end, line)
 
